@@ -159,8 +159,15 @@ class C01(Prop):
 
     def gen(self, rng, tier, seed):
         cfg = gen.gen_base_cfg(rng, seed, max_age_p=0.15,
+                               stop_children_p=0.1,
+                               stop_signals=(15, 15, 15, 15, 2, 1, 3),
                                kinds=('obedient', 'slow', 'stubborn',
                                       'selfexit'))
+        for wc in cfg['watchers']:
+            if rng.random() < 0.1:
+                # reload only sends SIGHUP (no freshness claim then, the
+                # count must converge all the same)
+                wc['opts']['send_hup'] = True
         n = rng.choice([2, 3, 4, 6, 8, 12]) if tier == 'quick' else \
             rng.choice([3, 5, 8, 12, 20, 30])
         ops = gen.gen_history(rng, cfg, n, self.REQS, self.WEIGHTS)
